@@ -30,6 +30,7 @@ from pathlib import Path
 from typing import Any, Dict, List, Optional, Tuple
 
 from ..core import Ctx, MachineryError, chunks, NCPU
+from ..projects import waiting_modules as P_waiting
 from .. import pygen
 
 CFG_ENUM = """SPECIFICATION Spec
@@ -73,9 +74,9 @@ def observed_run(roots: List[str], out: str, docformat: str, W: bool, timeout: i
 
     def bm(self):
         st["system"] = self.system
-        for i, m in enumerate(self.system.unprocessed_modules, 1):
+        for i, m in enumerate(P_waiting(self.system), 1):
             st["order"][id(m)] = i
-        ev.append({"k": "discover", "m": len(self.system.unprocessed_modules)})
+        ev.append({"k": "discover", "m": len(P_waiting(self.system))})
         return o_bm(self)
 
     def pm(self, mod):
